@@ -145,6 +145,12 @@ func (p *pipe) Close() error {
 		p.closing = true
 		if p.added {
 			p.s.remPipe(p)
+		} else {
+			// Never attached (closed during Attaching, or refused by
+			// the protocol): nobody else will drop the list entry or
+			// release the ID.
+			p.s.pipes.Remove(p)
+			pipeIDs.Free(p.id)
 		}
 		p.lock.Unlock()
 
